@@ -67,7 +67,7 @@ pub enum Entry {
     IdxMap,
     /// std HashMap with RandomState (iteration order differs per instance / process)
     HashMapStd,
-    /// several batches (3a / 3aSha : several hash_weigthed_idxmap calls; P2/P3: same as Item)
+    /// several calls on one sketcher (3a / 3aSha : several hash_weigthed_idxmap calls; P2/P3: a rotation of container, item-wise and weighted-set calls)
     Batches(usize),
     /// several batches through HashMap calls
     HashBatches(usize),
@@ -113,9 +113,32 @@ fn pmh_generic<H: Hasher + Default>(v: Pv, m: usize, items: &[(u64, f64)], entry
             let mut s = ProbMinHash2::<u64, H>::new(m, ph);
             match entry {
                 Entry::Wset => s.hash_wset(&mut WSet::new(items)),
-                Entry::HashMapStd | Entry::HashBatches(_) => {
+                Entry::HashMapStd => {
                     let hm: HashMap<u64, f64> = items.iter().cloned().collect();
                     s.hash_weigthed_hashmap::<()>(&hm)
+                }
+                // several calls on one sketcher: HashMap batches, or a rotation of HashMap / item-wise / weighted-set calls
+                Entry::HashBatches(k) => {
+                    for c in chunks(items, k) {
+                        let hm: HashMap<u64, f64> = c.iter().cloned().collect();
+                        s.hash_weigthed_hashmap::<()>(&hm);
+                    }
+                }
+                Entry::Batches(k) => {
+                    for (i, c) in chunks(items, k).into_iter().enumerate() {
+                        match i % 3 {
+                            0 => {
+                                let hm: HashMap<u64, f64> = c.iter().cloned().collect();
+                                s.hash_weigthed_hashmap::<()>(&hm);
+                            }
+                            1 => {
+                                for (d, w) in c {
+                                    s.hash_item(*d, *w);
+                                }
+                            }
+                            _ => s.hash_wset(&mut WSet::new(c)),
+                        }
+                    }
                 }
                 _ => {
                     for (d, w) in items {
@@ -133,9 +156,36 @@ fn pmh_generic<H: Hasher + Default>(v: Pv, m: usize, items: &[(u64, f64)], entry
                     let im: IndexMap<u64, f64> = items.iter().cloned().collect();
                     s.hash_weigthed_idxmap(&im)
                 }
-                Entry::HashMapStd | Entry::HashBatches(_) => {
+                Entry::HashMapStd => {
                     let hm: HashMap<u64, f64> = items.iter().cloned().collect();
                     s.hash_weigthed_hashmap(&hm)
+                }
+                Entry::HashBatches(k) => {
+                    for c in chunks(items, k) {
+                        let hm: HashMap<u64, f64> = c.iter().cloned().collect();
+                        s.hash_weigthed_hashmap(&hm);
+                    }
+                }
+                // several calls on one sketcher: a rotation of IndexMap / item-wise / HashMap / weighted-set calls
+                Entry::Batches(k) => {
+                    for (i, c) in chunks(items, k).into_iter().enumerate() {
+                        match i % 4 {
+                            0 => {
+                                let im: IndexMap<u64, f64> = c.iter().cloned().collect();
+                                s.hash_weigthed_idxmap(&im);
+                            }
+                            1 => {
+                                for (d, w) in c {
+                                    s.hash_item(*d, w);
+                                }
+                            }
+                            2 => {
+                                let hm: HashMap<u64, f64> = c.iter().cloned().collect();
+                                s.hash_weigthed_hashmap(&hm);
+                            }
+                            _ => s.hash_wset(&mut WSet::new(c)),
+                        }
+                    }
                 }
                 _ => {
                     for (d, w) in items {
